@@ -299,7 +299,8 @@ namespace foonathan
             bool try_deallocate_array(void* ptr, std::size_t count, std::size_t size,
                                       std::size_t alignment) noexcept
             {
-                auto res = composable_traits::try_deallocate_array(ptr, count, size, alignment);
+                auto res = composable_traits::try_deallocate_array(get_allocator(), ptr, count, size,
+                                                                   alignment);
                 if (res)
                     this->on_array_deallocation(ptr, count, size, alignment);
                 return res;
